@@ -529,6 +529,20 @@ func openers() []Input {
 	// zero-power bonded validator with a positive rate + one abstainer: only power-carrying votes decide
 	out = append(out, Input{Vals: []Val{{Tok: "1000000", Undel: "1"}, one}, Params: base, WL: []int{0}, H: 4, Rates: []Rate{},
 		Votes: []Vote{{0, []Tuple{{0, five(9)}}}, {1, []Tuple{{0, five(4)}}}}})
+	// outside the overflow-free domain (model must predict the implementation's behaviour):
+	// ExpirationBlocks = 2^64-1 wraps the uint64 addition: the fresh rate is dropped
+	pw := base
+	pw.Exp = 18446744073709551615
+	out = append(out, Input{Vals: []Val{one}, Params: pw, WL: []int{0}, H: 9, Votes: []Vote{},
+		Rates: []Rate{{0, five(5), 5}}})
+	// a single validator votes the largest Dec: Tally overflows
+	out = append(out, Input{Vals: []Val{one}, Params: base, WL: []int{0}, H: 4, Rates: []Rate{},
+		Votes: []Vote{{0, []Tuple{{0, decLimit().String()}}}}})
+	// VoteThreshold = largest Dec, bonded power 2: MulInt64 overflows
+	pt := base
+	pt.Thr = decLimit().String()
+	out = append(out, Input{Vals: []Val{{Tok: "2000000", Undel: "0"}}, Params: pt, WL: []int{0}, H: 4, Rates: []Rate{},
+		Votes: []Vote{{0, []Tuple{{0, five(5)}}}}})
 	return out
 }
 
